@@ -703,7 +703,7 @@ pub fn generate(ctx: &mut Ctx) {
 
     // ---- the partitioners, two input streams ---------------------------------
     let algos = ["rcb", "rcbf", "rib", "hilbert", "zcurve", "mj", "kmeans"];
-    let per_algo = ctx.budget(18, 48);
+    let per_algo = ctx.budget(40, 80);
     for algo in algos {
         for c in 0..per_algo {
             // alternate the streams; the exact-frame stream only matters where a frame is used,
@@ -726,7 +726,16 @@ pub fn generate(ctx: &mut Ctx) {
             let (p1, p2) = match algo {
                 "rcb" | "rcbf" | "rib" => (1 + ctx.rng.usize(5), ctx.rng.usize(3)),
                 "hilbert" => (2 + ctx.rng.usize(15), *ctx.rng.pick(&[4usize, 8, 12, 16, 21])),
-                "zcurve" => (2 + ctx.rng.usize(15), *ctx.rng.pick(&[2usize, 4, 6, 8, 10])),
+                // every recursive call of z_curve_partition_recurse maps ALL points, so the cost is
+                // n x (number of non-empty cells): deep orders only on small inputs
+                "zcurve" => (
+                    2 + ctx.rng.usize(15),
+                    if n > 4000 {
+                        *ctx.rng.pick(if dim == 2 { &[2usize, 3, 4] } else { &[1usize, 2, 3] })
+                    } else {
+                        *ctx.rng.pick(&[4usize, 6, 8, 10])
+                    },
+                ),
                 "mj" => (2 + ctx.rng.usize(19), 1 + ctx.rng.usize(4)),
                 _ => (2 + ctx.rng.usize(5), ctx.rng.usize(36)),
             };
